@@ -101,8 +101,14 @@ func c8Program(cell c8Cell) (src, stdin string, pre map[string]string, expOut st
 		case "file":
 			pre["in.txt"] = v + "\n"
 			return name + " := read(\"in.txt\")\n"
-		case "stdin":
-			stdin += v + "\n"
+		case "file-no-final-newline":
+			pre["in.txt"] = v // a file whose last line is not terminated
+			return name + " := read(\"in.txt\")\n"
+		case "command-no-final-newline":
+			pre["in.txt"] = v // a command whose output does not end with a line break
+			return name + ", e" + name + ", c" + name + " := @cat(\"in.txt\")\n"
+		case "stdin", "stdin-last-line":
+			stdin += v + "\n" // stdin-last-line: the terminator of the last line is removed below
 			return name + " := input()\n"
 		case "stdin-prompt":
 			stdin += v + "\n"
@@ -123,11 +129,11 @@ func c8Program(cell c8Cell) (src, stdin string, pre map[string]string, expOut st
 		if strings.ContainsAny(v, "`\r") {
 			return "", "", nil, "", nil, false
 		}
-	case "file", "command":
+	case "file", "command", "file-no-final-newline", "command-no-final-newline":
 		if strings.HasSuffix(v, "\n") {
 			return "", "", nil, "", nil, false // command substitution / read strip trailing newlines by definition
 		}
-	case "stdin", "stdin-prompt", "stdin-function":
+	case "stdin", "stdin-prompt", "stdin-function", "stdin-last-line":
 		if strings.Contains(v, "\n") {
 			return "", "", nil, "", nil, false // input() reads one line
 		}
@@ -220,6 +226,10 @@ func c8Program(cell c8Cell) (src, stdin string, pre map[string]string, expOut st
 		}
 		src = reVarXW.ReplaceAllStringFunc(src, func(string) string { return tsQuote(v) })
 	}
+	if cell.origin == "stdin-last-line" {
+		// the value is the last line of the standard input and that line is not terminated (printf 'v' | script)
+		stdin = strings.TrimSuffix(stdin, "\n")
+	}
 	return src, stdin, pre, expOut, expFS, true
 }
 
@@ -232,7 +242,7 @@ var c8Hostile = []string{"$(touch CANARY)", "`touch CANARY`", "$HOME", "${x}", "
 	"a \nb", "a\t\nb", "a\n b", " \n ", "x \n", "\n x", "a  \n  b", "~", "~/x", "a=~/x", "\ta", "a\t"}
 
 var c8Paths = []string{"sink", "print", "print-two", "assign", "concat-left", "concat-right", "compare", "compare-empty", "slice-copy", "argument", "argument-second", "return", "slice-literal", "slice-assign", "slice-param", "range-slice", "range-string", "subscript", "len", "write", "switch"}
-var c8Origins = []string{"literal", "literal-direct", "raw-literal", "file", "stdin", "stdin-prompt", "stdin-function", "command"}
+var c8Origins = []string{"literal", "literal-direct", "raw-literal", "file", "stdin", "stdin-prompt", "stdin-function", "command", "stdin-last-line", "file-no-final-newline", "command-no-final-newline"}
 
 // c8Prompt is the prompt of input(prompt); wherever it is shown it is not part of the value (execCase.IgnoreToken).
 const c8Prompt = "Q7Z ask> "
@@ -253,7 +263,7 @@ func c8Run(cell c8Cell) (execCase, execOutcome, bool) {
 
 func TestC08(t *testing.T) {
 	r, e := start(t, "C08",
-		"matrix: every printable ASCII character (plus newline and tab) x position (first, middle, last, only; carrier 'ab') x 19 data paths (print bare / with a second value, marker sink, assign, concatenation left/right, comparison both outcomes, comparison with the empty string / nil / an empty switch case, argument 1st/2nd, return from a function that obtains the value, slice literal / element assignment / through a slice parameter / copy(), range over slice and over the string, subscripts and substrings, len, write + append (file bytes), switch) x 5 origins (interpreted literal, raw literal, file via read, stdin via input, captured command output); plus random strings of length 0-12 over the full alphabet with hostile constants ($(touch CANARY), `touch CANARY`, $HOME, ${x}, *, ~, {a,b}, -n, -e, --, blanks, ;, &, |, >f, quotes, backslashes) pushed through random paths. Oracle: byte-exact value on stdout between markers / in the file, empty stderr, exit 0, and no file in the sandbox that was not written by the program. Non-trivial = cells whose character is not alphanumeric; distinct by (path, origin, value).",
+		"matrix: every printable ASCII character (plus newline and tab) x position (first, middle, last, only; carrier 'ab') x 19 data paths (print bare / with a second value, marker sink, assign, concatenation left/right, comparison both outcomes, comparison with the empty string / nil / an empty switch case, argument 1st/2nd, return from a function that obtains the value, slice literal / element assignment / through a slice parameter / copy(), range over slice and over the string, subscripts and substrings, len, write + append (file bytes), switch) x 11 origins (interpreted literal held in a variable / written at the place of use, raw literal, file via read, stdin via input() / input(prompt) / inside a function, captured command output, and the same three run-time sources without final line terminator: last line of stdin, file and command output not ending in a line break); plus random strings of length 0-12 over the full alphabet with hostile constants ($(touch CANARY), `touch CANARY`, $HOME, ${x}, *, ~, {a,b}, -n, -e, --, blanks, ;, &, |, >f, quotes, backslashes) pushed through random paths. Oracle: byte-exact value on stdout between markers / in the file, empty stderr, exit 0, and no file in the sandbox that was not written by the program. Non-trivial = cells whose character is not alphanumeric; distinct by (path, origin, value).",
 		[]string{"Bash target only (the property's anchors)", "a value that cannot exist at an origin is skipped: trailing newlines for read/command output, any newline for input(), backquote in raw literals", "a cell whose marker sink already fails is attributed to the sink path of that (origin, class) and the other paths of that value are counted inconclusive"})
 	defer r.Flush()
 
@@ -382,7 +392,7 @@ func TestC08(t *testing.T) {
 		// The random search stays out of that region (counted); the matrix keeps covering it cell by cell.
 		if (origin == "literal" || origin == "literal-direct" || origin == "raw-literal") && strings.ContainsAny(v, "$`\"\\") {
 			r.Class("excluded:C08-literal-interpolation")
-			origin = []string{"file", "command", "stdin", "stdin-prompt", "stdin-function"}[gen.Uniform(0, 4).Draw(t, "runtime-origin")]
+			origin = []string{"file", "command", "stdin", "stdin-prompt", "stdin-function", "stdin-last-line", "file-no-final-newline", "command-no-final-newline"}[gen.Uniform(0, 7).Draw(t, "runtime-origin")]
 		}
 		cell := c8Cell{path: path, origin: origin, value: v}
 		c, out, ok := c8Run(cell)
